@@ -16,24 +16,25 @@ _MODE = ['call']
 
 class R:
     """a scalar"""
-    __slots__ = ('spec', 'flat')
+    __slots__ = ('spec', 'flat', 'ast')
 
-    def __init__(self, spec, flat):
+    def __init__(self, spec, flat, ast=None):
         self.spec = spec
         self.flat = flat
+        self.ast = ast if ast is not None else ('var', flat)
 
     @staticmethod
     def lit(n):
         n = str(n)
         if n == '0':
-            return R('s_zero()', '0real')
+            return R('s_zero()', '0real', ('lit', '0'))
         if n == '1':
-            return R('s_one()', '1real')
-        return R('s_lit(%sreal)' % n, '%sreal' % n)
+            return R('s_one()', '1real', ('lit', '1'))
+        return R('s_lit(%sreal)' % n, '%sreal' % n, ('lit', n))
 
     def _bin(self, o, fn, op):
         o = lift(o)
-        return R('%s(%s, %s)' % (fn, self.spec, o.spec), '(%s %s %s)' % (self.flat, op, o.flat))
+        return R('%s(%s, %s)' % (fn, self.spec, o.spec), '(%s %s %s)' % (self.flat, op, o.flat), ('op', op, self.ast, o.ast))
 
     def __add__(self, o): return self._bin(o, 's_add', '+')
     def __sub__(self, o): return self._bin(o, 's_sub', '-')
@@ -41,8 +42,8 @@ class R:
     def __truediv__(self, o): return self._bin(o, 's_div', '/')
     def __mod__(self, o):
         o = lift(o)
-        return R('s_rem(%s, %s)' % (self.spec, o.spec), 'r_rem(%s, %s)' % (self.flat, o.flat))
-    def __neg__(self): return R('s_neg(%s)' % self.spec, '(0real - %s)' % self.flat)
+        return R('s_rem(%s, %s)' % (self.spec, o.spec), 'r_rem(%s, %s)' % (self.flat, o.flat), ('fn', 'r_rem', [self.ast, o.ast]))
+    def __neg__(self): return R('s_neg(%s)' % self.spec, '(0real - %s)' % self.flat, ('op', '-', ('lit', '0'), self.ast))
     def __radd__(self, o): return lift(o) + self
     def __rsub__(self, o): return lift(o) - self
     def __rmul__(self, o): return lift(o) * self
@@ -100,7 +101,7 @@ class Struct:
         for fn, fc in self.FIELDS:
             v = getattr(self, fn)
             if fc is R:
-                vals.append(R('%s.%s' % (spec, fn), v.flat))
+                vals.append(R('%s.%s' % (spec, fn), v.flat, v.ast))
             else:
                 vals.append(v.with_spec('%s.%s' % (spec, fn)))
         return type(self)(*vals, spec=spec)
@@ -108,7 +109,7 @@ class Struct:
 
 def with_spec(v, spec):
     if isinstance(v, R):
-        return R(spec, v.flat)
+        return R(spec, v.flat, v.ast)
     if isinstance(v, B):
         return B(spec, v.flat)
     return v.with_spec(spec)
@@ -272,3 +273,225 @@ class Law:
         pa += '    poly::%s(%s);\n' % (pname, ', '.join(c for _, c in atoms))
         pa += '}\n'
         return pa, pb
+
+
+# ---------------------------------------------------------------------------
+# certified laws: identities under hypotheses and/or with divisions (certificates authored by sympy, checked by Z3)
+
+import hashlib as _hashlib
+import json as _json
+import os as _os
+import re as _re
+import subprocess as _subprocess
+
+_ROOT = _os.path.dirname(_os.path.dirname(_os.path.abspath(__file__)))
+_CERT_FILE = _os.path.join(_ROOT, 'contracts', 'certs.json')
+_CERT_LOCAL = _os.path.join(_ROOT, '.cache', 'certs_local.json')
+_cert_cache = None
+
+
+def _load_certs():
+    global _cert_cache
+    if _cert_cache is None:
+        _cert_cache = {}
+        for p in (_CERT_FILE, _CERT_LOCAL):
+            if _os.path.exists(p):
+                try:
+                    _cert_cache.update(_json.load(open(p)))
+                except Exception:
+                    pass
+    return _cert_cache
+
+
+def get_cert(req):
+    key = _hashlib.sha256(_json.dumps(req, sort_keys=True).encode()).hexdigest()[:24]
+    cache = _load_certs()
+    if key in cache:
+        return cache[key]
+    p = _subprocess.run(['python3-vt', _os.path.join(_ROOT, 'tools', 'certs.py')], input=_json.dumps(req),
+                        capture_output=True, text=True, timeout=1800)
+    try:
+        ans = _json.loads(p.stdout)
+    except Exception:
+        ans = {'error': 'certs.py failed: ' + (p.stderr or p.stdout)[-500:]}
+    cache[key] = ans
+    if 'error' not in ans:
+        local = {}
+        if _os.path.exists(_CERT_LOCAL):
+            try:
+                local = _json.load(open(_CERT_LOCAL))
+            except Exception:
+                local = {}
+        local[key] = ans
+        _os.makedirs(_os.path.dirname(_CERT_LOCAL), exist_ok=True)
+        _json.dump(local, open(_CERT_LOCAL, 'w'))
+    return ans
+
+
+def ast_text(a, repl=None):
+    """flat text of an AST; `repl` maps the flat text of a node to a replacement symbol"""
+    k = a[0]
+    if k == 'var':
+        return a[1]
+    if k == 'lit':
+        return a[1] + 'real'
+    if k == 'op':
+        t = '(%s %s %s)' % (ast_text(a[2]), a[1], ast_text(a[3]))
+        if repl is not None and t in repl:
+            return repl[t]
+        return '(%s %s %s)' % (ast_text(a[2], repl), a[1], ast_text(a[3], repl))
+    if k == 'fn':
+        t = '%s(%s)' % (a[1], ', '.join(ast_text(x) for x in a[2]))
+        if repl is not None and t in repl:
+            return repl[t]
+        return '%s(%s)' % (a[1], ', '.join(ast_text(x, repl) for x in a[2]))
+    raise ValueError(a)
+
+
+def _listify(a):
+    if isinstance(a, tuple):
+        return [_listify(x) for x in a]
+    if isinstance(a, list):
+        return [_listify(x) for x in a]
+    return a
+
+
+HELPER_LEMMAS = '''
+pub proof fn lemma_div_mul(x: real, d: real) requires d != 0real ensures d * (x / d) == x { assert(d * (x / d) == x) by(nonlinear_arith) requires d != 0real; }
+pub proof fn lemma_mul_zero(k: real, h: real) requires h == 0real ensures k * h == 0real { assert(k * h == 0real) by(nonlinear_arith) requires h == 0real; }
+pub proof fn lemma_mul_nonzero(a: real, b: real) requires a != 0real, b != 0real ensures a * b != 0real { assert(a * b != 0real) by(nonlinear_arith) requires a != 0real, b != 0real; }
+pub proof fn lemma_cancel(c: real, y: real) requires c * y == 0real, c != 0real ensures y == 0real { assert(y == 0real) by(nonlinear_arith) requires c * y == 0real, c != 0real; }
+'''
+
+
+class CertLaw(Law):
+    """a Law whose conclusions hold under polynomial hypotheses and/or contain divisions"""
+
+    def __init__(self, name, params):
+        super().__init__(name, params)
+        self.eq_hyps = []      # (R, R)
+        self.nz_hyps = []      # R
+        self.goals = []        # (R, R, spec_stmt)
+        self.extra_requires = []   # (spec, flat) not used by the certificate (e.g. inequalities)
+
+    def require_eq(self, a, b):
+        a, b = lift(a), lift(b)
+        self.eq_hyps.append((a, b))
+
+    def require_nonzero(self, a):
+        self.nz_hyps.append(lift(a))
+
+    def eq(self, a, b):
+        if isinstance(a, R) or isinstance(b, R):
+            a, b = lift(a), lift(b)
+            self.goals.append(([(a, b)], '%s == %s' % (a.spec, b.spec)))
+        else:
+            la, lb = a.leaves(), b.leaves()
+            self.goals.append((list(zip(la, lb)), '%s == %s' % (a.spec, b.spec)))
+
+    def to_views(self, flat):
+        m = dict(self.atoms())
+        return _re.sub(r'[A-Za-z_][A-Za-z0-9_]*', lambda mo: m.get(mo.group(0), mo.group(0)), flat)
+
+    def render(self):
+        pairs = [p for g, _ in self.goals for p in g]
+        req = {'goals': [[_listify(a.ast), _listify(b.ast)] for a, b in pairs],
+               'hyps': [[_listify(a.ast), _listify(b.ast)] for a, b in self.eq_hyps]}
+        cert = get_cert(req)
+        if 'error' in cert:
+            raise RuntimeError('no certificate for law %s: %s' % (self.name, cert['error']))
+        atoms = self.atoms()
+        quots = cert['quotients']
+        fns = cert['fns']
+        repl = {q['text']: q['sym'] for q in quots}
+        repl.update({f['text']: f['sym'] for f in fns})
+        inst = {q['sym']: q['text'] for q in quots}
+        inst.update({f['sym']: f['text'] for f in fns})
+
+        def instantiate(t):
+            return _re.sub(r'[qf][0-9]+_', lambda mo: inst[mo.group(0)], t)
+        # AST lookup for quotient nodes: walk all asts
+        node_of = {}
+
+        def walk(a):
+            if a[0] == 'op':
+                node_of[ast_text(a)] = a
+                walk(a[2]); walk(a[3])
+            elif a[0] == 'fn':
+                node_of[ast_text(a)] = a
+                for x in a[2]:
+                    walk(x)
+        for a, b in pairs + self.eq_hyps:
+            walk(a.ast); walk(b.ast)
+        for d in self.nz_hyps:
+            walk(d.ast)
+        qinfo = []
+        for q in quots:
+            node = node_of[q['text']]
+            qinfo.append({'sym': q['sym'], 'text': q['text'],
+                          'X': ast_text(node[2]), 'D': ast_text(node[3]),
+                          'Xs': ast_text(node[2], repl), 'Ds': ast_text(node[3], repl)})
+        # ---- pass B: the pure identities
+        pparams = [a for a, _ in atoms] + [f['sym'] for f in fns] + [q['sym'] for q in quots]
+        idents = []
+        per_goal = []
+        hyp_s = ['(%s - %s)' % (ast_text(a.ast, repl), ast_text(b.ast, repl)) for a, b in self.eq_hyps]
+        for (a, b), g in zip(pairs, cert['goals']):
+            Ls, Rs = ast_text(a.ast, repl), ast_text(b.ast, repl)
+            # c as a product of denominator texts
+            cfac = []
+            terms = []
+            for qi in qinfo:
+                if qi['sym'] in g['qcof']:
+                    terms.append(('(%s)' % g['qcof'][qi['sym']], '((%s * %s) - %s)' % (qi['Ds'], qi['sym'], qi['Xs'])))
+            for hc, hs in zip(g['hcof'], hyp_s):
+                if hc != '0real':
+                    terms.append(('(%s)' % hc, hs))
+            c = g['c']
+            ident = '%s * (%s - %s) == %s' % (c, Ls, Rs, ' + '.join('%s * %s' % t for t in terms) if terms else '0real')
+            idents.append(ident)
+            per_goal.append((c, Ls, Rs, terms, g))
+        pb = 'pub proof fn p_%s_id(%s)\n    ensures %s,\n{\n%s}\n' % (
+            self.name, ', '.join(p + ': real' for p in pparams), ',\n        '.join(idents),
+            ''.join('    assert(%s) by(nonlinear_arith);\n' % i for i in idents))
+        # ---- pass A: flat lemma over reals
+        flat_req = ['%s == %s' % (a.flat, b.flat) for a, b in self.eq_hyps]
+        dens = []
+        for qi in qinfo:
+            if qi['D'] not in dens:
+                dens.append(qi['D'])
+        given_nz = [d.flat for d in self.nz_hyps]
+        for d in dens:
+            if d not in given_nz:
+                given_nz.append(d)
+        flat_req += ['%s != 0real' % d for d in given_nz]
+        flat_req += [f for _, f in self.extra_requires]
+        flat_ens = ['%s == %s' % (a.flat, b.flat) for a, b in pairs]
+        fa = 'pub proof fn flat_%s(%s)\n' % (self.name, ', '.join(a + ': real' for a, _ in atoms))
+        if flat_req:
+            fa += '    requires ' + ',\n        '.join(flat_req) + ',\n'
+        fa += '    ensures ' + ',\n        '.join(flat_ens) + ',\n{\n'
+        for qi in qinfo:
+            fa += '    lemma_div_mul(%s, %s);\n' % (qi['X'], qi['D'])
+        fa += '    poly::p_%s_id(%s);\n' % (self.name, ', '.join([a for a, _ in atoms] + [f['text'] for f in fns] + [q['text'] for q in quots]))
+        for (c, Ls, Rs, terms, g) in per_goal:
+            for k, h in terms:
+                fa += '    lemma_mul_zero(%s, %s);\n' % (instantiate(k), instantiate(h))
+            ci = instantiate(c)
+            Li, Ri = instantiate(Ls), instantiate(Rs)
+            if c.strip() == '1real':
+                fa += '    assert(1real * (%s - %s) == (%s - %s));\n' % (Li, Ri, Li, Ri) if False else ''
+                fa += '    assert(%s == %s);\n' % (Li, Ri)
+            else:
+                fa += '    assert(%s * (%s - %s) == 0real);\n' % (ci, Li, Ri)
+                fa += '    assert(%s != 0real) by(nonlinear_arith) requires %s;\n' % (ci, ', '.join('%s != 0real' % d for d in given_nz))
+                fa += '    lemma_cancel(%s, (%s - %s));\n' % (ci, Li, Ri)
+        fa += '}\n'
+        # ---- pass A: struct-level law
+        pa = 'pub proof fn law_%s(%s)\n' % (self.name, ', '.join('%s: %s' % (nm, type_text(cls)) for nm, cls in self.params))
+        spec_req = [self.to_views(r) for r in flat_req]
+        if spec_req:
+            pa += '    requires ' + ',\n        '.join(spec_req) + ',\n'
+        pa += '    ensures ' + ',\n        '.join(s for _, s in self.goals) + ',\n{\n'
+        pa += '    flat_%s(%s);\n}\n' % (self.name, ', '.join(c for _, c in atoms))
+        return fa + pa, pb
